@@ -21,7 +21,8 @@ namespace sqf
             using data_type = sqf::runtime::t_scalar;
         private:
             float m_value;
-            inline static int s_decimals = -1;
+            // Print mode of the runtime executing on this thread (see runtime::scalar_decimals)
+            inline static thread_local int s_decimals = -1;
         protected:
             bool do_equals(std::shared_ptr<data> other, bool invariant) const override
             {
